@@ -314,6 +314,22 @@ def numerics(ctx):
                               "C^-1 (linearised canonical field at the point) C is not the normal form of the reported modes (residual %g)" % res3,
                               {"pair": nm, "mu": mu, "point": k, "residual": res3, "modes": [float(m) for m in modes], "C": C.tolist()})
                 return
+            # the public bundle `point.linear_data` hands out the SAME modes, C and C^-1 (in that order)
+            try:
+                ld = L.linear_data
+                ld_modes = [m for m in tuple(ld)[:4] if m is not None]
+                ld_C, ld_Cinv = np.asarray(tuple(ld)[4], dtype=float), np.asarray(tuple(ld)[5], dtype=float)
+            except Exception as ex:
+                ctx.violation("linear-data-missing:L%d" % k, "linear_data raises for L%d, mu=%r: %r" % (k, mu, ex), {"pair": nm, "mu": mu, "point": k})
+                return
+            if not (np.array_equal(ld_C, C) and np.array_equal(ld_Cinv, np.asarray(Cinv, dtype=float))
+                    and sorted(float(m) for m in ld_modes) == sorted(float(m) for m in modes)):
+                ctx.violation("linear-data-inconsistent:L%d" % k,
+                              "point.linear_data does not carry (modes, C, C^-1) of linear_modes / normal_form_transform (C equal: %s, C^-1 equal: %s)" % (
+                                  bool(np.array_equal(ld_C, C)), bool(np.array_equal(ld_Cinv, np.asarray(Cinv, dtype=float)))),
+                              {"pair": nm, "mu": mu, "point": k, "linear_data_C": ld_C.tolist(), "normal_form_transform_C": C.tolist(),
+                               "linear_data_modes": [float(m) for m in ld_modes], "linear_modes": [float(m) for m in modes]})
+                return
             if k <= 3:
                 c2 = float(L.dynamics.cn(2))
                 lam, om1, om2 = [float(m) for m in modes]
